@@ -93,7 +93,7 @@ func NewYAMLAccountManager(accountDir string) (*YAMLAccountManager, error) {
 
 // loginFile is the name of the file an account is created in.
 func (am *YAMLAccountManager) loginFile(login string) string {
-	return filepath.Join(am.accountDir, path.Join("/", login)+".yaml")
+	return filepath.Join(am.accountDir, path.Join("/", login+".yaml"))
 }
 
 // accountFile is the file that holds the account.
